@@ -237,6 +237,8 @@ func replicasOf(w W) *int32 {
 }
 
 var (
+	arena        = make([]filter.Filter, 0, 1<<14)
+	arenaTerms   []*Term
 	scratchIDs   = make([]nsname.NSName, 0, 8)
 	scratchMap   = map[string]string{}
 	scratchNames = make([]string, 0, 8)
@@ -262,10 +264,27 @@ func (t *Term) Build() filter.Filter {
 		for _, c := range t.Cs {
 			cs = append(cs, c.Build())
 		}
-		if t.Op == "and" {
-			return filter.And(cs...)
+		// The children of successive composites live in one backing array, and a composite whose first child is
+		// the previous composite's last child is given an overlapping window of it (all[:2], all[1:]): a filter
+		// only reads the slice it was given.
+		var window []filter.Filter
+		n := len(arena)
+		if n+len(cs) > cap(arena) {
+			arena, arenaTerms, n = make([]filter.Filter, 0, 1<<14), nil, 0
 		}
-		return filter.Or(cs...)
+		if n > 0 && len(cs) >= 2 && arenaTerms[n-1] == t.Cs[0] {
+			arena = append(arena, cs[1:]...)
+			arenaTerms = append(arenaTerms, t.Cs[1:]...)
+			window = arena[n-1 : n-1+len(cs)]
+		} else {
+			arena = append(arena, cs...)
+			arenaTerms = append(arenaTerms, t.Cs...)
+			window = arena[n : n+len(cs)]
+		}
+		if t.Op == "and" {
+			return filter.And(window...)
+		}
+		return filter.Or(window...)
 	case "nsname":
 		// the caller's slice is reused for the next filter: a filter must not alias its arguments
 		scratchIDs = scratchIDs[:0]
@@ -513,6 +532,10 @@ func objectUniverse() []FObj {
 		objs = append(objs, FObj{Kind: "event", NS: inv[1], Name: "ev-" + inv[2], Inv: inv})
 	}
 	objs = append(objs, FObj{Kind: "secret", NS: "n1", Name: "a", Labels: []pair{{"x", "1"}, {"y", "1"}}})
+	// empty strings are values like any other: selectors with empty label values, an event about an object of unknown kind
+	objs = append(objs, FObj{Kind: "service", NS: "n1", Name: "ex", Labels: []pair{{"x", "1"}}, Sel: []pair{{"x", ""}}},
+		FObj{Kind: "service", NS: "n1", Name: "ey", Labels: []pair{{"x", "1"}}, Sel: []pair{{"y", ""}}},
+		FObj{Kind: "event", NS: "n1", Name: "ev-nokind", Inv: [3]string{"", "n1", "a"}})
 	return objs
 }
 
@@ -554,16 +577,16 @@ func leafUniverse() (all []*Term, core []*Term) {
 	for i, id := range []string{"x1", "x1b", "n1", "cx1", "cx2"} {
 		add(&Term{Op: "fn", ID: id}, i == 0 || i >= 2)
 	}
-	for i, n := range [][]string{{"w1"}, {"w1", "w2"}, {"w2", "w1"}, {}} {
+	for i, n := range [][]string{{"w1"}, {"w1", "w2"}, {"w2", "w1"}, {}, {""}, {"w1,w2"}, {"w1", ""}, {"w1", "w2", "w1"}} {
 		add(&Term{Op: "node", Names: n}, i == 1)
 	}
-	for i, v := range [][3]string{{"Pod", "n1", "a"}, {"Pod", "n2", "a"}, {"Service", "n1", "a"}, {"pod", "n1", "a"}} {
+	for i, v := range [][3]string{{"Pod", "n1", "a"}, {"Pod", "n2", "a"}, {"Service", "n1", "a"}, {"pod", "n1", "a"}, {"", "n1", "a"}, {"Pod", "", "a"}, {"Pod", "n1", ""}} {
 		add(&Term{Op: "involved", Kind: v[0], NS: v[1], Name: v[2]}, i == 0)
 	}
 	for _, v := range [][3]string{{"Node", "", "w1"}, {"Pod", "n1", "a"}, {"Pod", "default", "a"}} {
 		add(&Term{Op: "involved", Kind: v[0], NS: v[1], Name: v[2], ViaObject: true}, false)
 	}
-	for i, m := range [][]pair{{{"x", "1"}}, {{"x", "1"}, {"y", "1"}}, {}} {
+	for i, m := range [][]pair{{{"x", "1"}}, {{"x", "1"}, {"y", "1"}}, {}, {{"x", ""}}, {{"y", ""}}, {{"x", ""}, {"y", "1"}}, {{"y", "1"}, {"x", "1"}}} {
 		add(&Term{Op: "selmatch", Target: m}, i == 1)
 	}
 	w1 := W{NS: "n1", Name: "w1", Sel: Sel{ML: []pair{{"x", "1"}}}, Tmpl: []pair{{"x", "1"}}}
@@ -603,6 +626,13 @@ func combTerms(tier string, rng *rand.Rand) []*Term {
 	for _, a := range bin {
 		for _, b := range bin {
 			ts = append(ts, &Term{Op: "and", Cs: []*Term{a, b}}, &Term{Op: "or", Cs: []*Term{a, b}})
+		}
+	}
+	// chains: each composite starts with the child the previous one ended with (overlapping argument windows)
+	for _, op := range []string{"or", "and"} {
+		for i := 0; i+2 < len(core); i++ {
+			ts = append(ts, &Term{Op: op, Cs: []*Term{core[i], core[i+1]}}, &Term{Op: op, Cs: []*Term{core[i+1], core[i+2]}},
+				&Term{Op: op, Cs: []*Term{core[i+2], core[i], core[i+1]}}, &Term{Op: op, Cs: []*Term{core[i+1], core[i]}})
 		}
 	}
 	// depth 3, systematically over the core leaves: nested composites on either side
@@ -724,8 +754,11 @@ func workloadTerms(tier string) []*Term {
 		}
 	}
 	// node / involved / selmatch leaves
-	for _, n := range [][]string{{"w1"}, {"w2"}, {"w1", "w2"}, {"w3", "w1"}, {}} {
+	for _, n := range [][]string{{"w1"}, {"w2"}, {"w1", "w2"}, {"w3", "w1"}, {}, {""}, {"w1,w2"}, {"", "w2"}} {
 		ts = append(ts, &Term{Op: "node", Names: n})
+	}
+	for _, v := range [][3]string{{"", "n1", "a"}, {"", "n2", "b"}, {"Pod", "", "a"}} {
+		ts = append(ts, &Term{Op: "involved", Kind: v[0], NS: v[1], Name: v[2]})
 	}
 	for _, k := range []string{"Pod", "Service"} {
 		for _, ns := range []string{"n1", "n2"} {
@@ -737,7 +770,7 @@ func workloadTerms(tier string) []*Term {
 	for _, v := range [][3]string{{"Node", "", "w1"}, {"Node", "", "w2"}, {"Pod", "n1", "a"}, {"Pod", "default", "a"}, {"Service", "n1", "a"}} {
 		ts = append(ts, &Term{Op: "involved", Kind: v[0], NS: v[1], Name: v[2], ViaObject: true})
 	}
-	for _, m := range [][]pair{{}, {{"x", "1"}}, {{"x", "1"}, {"y", "1"}}, {{"y", "2"}}, {{"x", "2"}, {"y", "2"}}} {
+	for _, m := range [][]pair{{}, {{"x", "1"}}, {{"x", "1"}, {"y", "1"}}, {{"y", "2"}}, {{"x", "2"}, {"y", "2"}}, {{"x", ""}}, {{"y", ""}}, {{"x", ""}, {"y", "2"}}} {
 		ts = append(ts, &Term{Op: "selmatch", Target: m})
 	}
 	return ts
